@@ -2,7 +2,7 @@
    run <fix> <page> <n> <offN,offP,offM,offA> <footN,footP,footM,footA> <conv> <scale> <nointer> <flags> <tclass> <paths> <fids> <fs> <imgs> <ops...>
      conv : from:to:dt:res;...  (fmt letters N P M A, dt f4|f8) or -
      scale: fmt:dt:value:scaleid;... or - (scale factors the array writer computes)   nointer: 4 flags N P M A
-     flags: <mixed-sign data><fewer than 3 axes><reshape keeps scale factors><image re-pointed after an own-file save><views of a map recognised>
+     flags: <mixed-sign data><fewer than 3 axes><reshape keeps scale factors><image re-pointed after an own-file save><views of a map recognised><saver re-pointed when its data were unmapped>
      tclass: 16 letters, row = image class N P M A, column = name family N P M A: class of the written file
      paths: N0,N1,P0,M1  (format letter + compressed flag), one per path NAME
      fids : 0,0,1        file identity behind each name (symlink / hard link / other spelling share one)
@@ -57,7 +57,7 @@ let handle op args = match op, args with
                   | _ -> failwith "scale") (split ';' scale);
               g_nointer = (fun f -> nointer.[match f with Nii -> 0 | Pair -> 1 | Mgh -> 2 | Spm -> 3] = '1');
               g_mixed = (flags.[0] = '1'); g_lowdim = (flags.[1] = '1'); g_reshape_ok = (flags.[2] = '1');
-              g_repoint = (flags.[3] = '1'); g_viewfix = (flags.[4] = '1');
+              g_repoint = (flags.[3] = '1'); g_viewfix = (flags.[4] = '1'); g_maprepoint = (flags.[5] = '1');
               g_tclass = (fun x n -> fmt_of (tcls.[(match x with Nii -> 0 | Pair -> 1 | Mgh -> 2 | Spm -> 3) * 4
                                                + (match n with Nii -> 0 | Pair -> 1 | Mgh -> 2 | Spm -> 3)])) } in
     let fs0 = List.map (fun s -> if s = "-" then None else match String.split_on_char ':' s with
